@@ -107,7 +107,13 @@ class Module:
         self.src = open(path).read()
         self.tree = ast.parse(self.src)
         self.funcs, self.imports, self.consts = {}, {}, {}
+        self.records = {}        # plain record classes (NamedTuple / dataclass without __init__): name -> field names
         for n in self.tree.body:
+            if isinstance(n, ast.ClassDef) and not any(isinstance(m, ast.FunctionDef) and m.name in ("__init__", "__new__", "__post_init__") for m in n.body) \
+                    and (any(ast.unparse(b).endswith("NamedTuple") for b in n.bases) or any("dataclass" in ast.unparse(d) for d in n.decorator_list)):
+                fields = [(st.target.id, st.value) for st in n.body if isinstance(st, ast.AnnAssign) and isinstance(st.target, ast.Name)]
+                if fields:
+                    self.records[n.name] = fields
             if isinstance(n, ast.FunctionDef):
                 self.funcs[n.name] = n
             elif isinstance(n, ast.ImportFrom):
@@ -153,6 +159,8 @@ class Interp:
     def resolve_global(self, mod: Module, name, node):
         if name in mod.funcs:
             return FuncRef(mod, mod.funcs[name])
+        if name in getattr(mod, "records", {}):
+            return RecordRef(name, mod.records[name])
         if name in mod.imports:
             m, a = mod.imports[name]
             if a is None:
@@ -391,7 +399,12 @@ class Interp:
                 pass
             v = vals[0]
             for w in vals[1:]:
+                if w is v:
+                    continue
                 v = self.d.join(v, w, node, silent=True)
+            fs = getattr(vals[0], "fields", None)
+            if fs and isinstance(v, Seq) and len(v.items) == len(fs) and all(getattr(w, "fields", None) == fs for w in vals):
+                v.fields = fs           # a record stays a record across a join
             env.vars[k] = v
 
     def rebind(self, target_expr, new, env):
@@ -487,6 +500,8 @@ class Interp:
             return d.join(vb, vo, e)
         if isinstance(e, ast.Attribute):
             recv = self.expr(e.value, env)
+            if isinstance(recv, Seq) and e.attr in (getattr(recv, "fields", None) or ()):
+                return recv.items[recv.fields.index(e.attr)]
             return d.attr(recv, e.attr, e)
         if isinstance(e, ast.Subscript):
             recv = self.expr(e.value, env)
@@ -603,10 +618,34 @@ class Interp:
         if isinstance(f, FuncRef):
             summ = getattr(d, "repo_summaries", {}).get(f.name)
             if summ is not None:
-                return summ(d, args, kwargs, e)
+                out = summ(d, args, kwargs, e)
+                # a declared (positional) summary of a function that now hands its results back as a record: the fields get their names
+                recs = getattr(f.module, "records", {})
+                for r_ in ast.walk(f.node):
+                    if isinstance(r_, ast.Return) and isinstance(r_.value, ast.Call) and isinstance(r_.value.func, ast.Name) and r_.value.func.id in recs \
+                            and isinstance(out, Seq) and len(out.items) == len(recs[r_.value.func.id]):
+                        out.fields = [n_ for n_, _d in recs[r_.value.func.id]]
+                return out
             return self.call_func(f, args, kwargs, e)
         if isinstance(f, ExtName):
             return d.call_external(f.q, args, kwargs, e)
+        if isinstance(f, RecordRef):
+            # constructing a plain record: a tuple of the field values that can also be read by field name
+            names = [n_ for n_, _d in f.fields]
+            vals = dict(zip(names, args))
+            vals.update({k: v for k, v in kwargs.items() if k in names})
+            items = []
+            for n_, dflt in f.fields:
+                if n_ in vals:
+                    items.append(vals[n_])
+                elif dflt is not None:
+                    items.append(self.expr(dflt, env))
+                else:
+                    raise Unsupported(e, f"record {f.name}: field {n_} not given")
+            out = d.make_seq(items, e)
+            if isinstance(out, Seq):
+                out.fields = names
+            return out
         if isinstance(f, FuncChoice):
             # `(f if c else g)(x)`: either callee may run; both are interpreted and the results joined
             outs = []
@@ -618,6 +657,14 @@ class Interp:
                 out = d.join(out, o, e)
             return out
         raise Unsupported(e, f"call of {f!r}")
+
+
+class RecordRef(V):
+    """a plain record class of the package (NamedTuple / dataclass without methods of its own)"""
+    def __init__(self, name, fields):
+        self.name, self.fields = name, fields
+    def __repr__(self):
+        return f"Record({self.name})"
 
 
 class FuncChoice(V):
